@@ -97,8 +97,12 @@ def nnx_case(c):
         out.append({'keys': [tab.get(key_data(x)) for x in ks], 'raw': [list(key_data(x)) for x in ks]})
       elif o[0] == 'split':
         only = nnx.Any(*[nnx.filterlib.WithTag(t) for t in o[1]]) if o[1] is not None else ...
-        backups.append(nnx.split_rngs(rngs, splits=o[2], only=only))
-        split_now.append(list(o[1]) if o[1] is not None else [n for n in rngs])
+        if len(o) > 3 and o[3]:
+          backups.append(nnx.split_rngs(rngs, splits=1, only=only, squeeze=True))
+          split_now.append([])          # squeezed streams stay scalar: drawn from directly
+        else:
+          backups.append(nnx.split_rngs(rngs, splits=o[2], only=only))
+          split_now.append(list(o[1]) if o[1] is not None else [n for n in rngs])
         out.append({'ok': True})
       elif o[0] == 'restore':
         if backups:
